@@ -22,6 +22,7 @@ def dispatch (line : String) : String :=
   | "repeat" :: rest => BlockDriver.handleRepeat (" ".intercalate rest)
   | "hdlc" :: rest => HdlcDriver.handle (" ".intercalate rest)
   | "fsink" :: rest => FileSinkDriver.handle (" ".intercalate rest)
+  | "audec" :: rest => CodecDriver.handleAuDec (" ".intercalate rest)
   | "codec" :: rest => CodecDriver.handleCodec (" ".intercalate rest)
   | "reasm" :: rest => CodecDriver.handleReasm (" ".intercalate rest)
   | "sigmf" :: rest => CodecDriver.handleSigmf (" ".intercalate rest)
